@@ -24,22 +24,20 @@ for pid in props:
         m["not_applicable"].append({"property_id": pid, "reason": reg.get("not_applicable", {}).get(
             pid, "model and proofs not yet completed (in progress; DESIGN.md §8) — not decided by another technique")})
 json.dump(m, open(os.path.join(ROOT, "MANIFEST.json"), "w"), indent=1)
-# findings
+# findings: status=fixed entries are kept (written by the coordinator); status=finding entries are
+# rebuilt from the per-property fragments so that a finding removed from its fragment disappears.
 kf_path = os.path.join(ROOT, "known_findings.json")
 kf = json.load(open(kf_path))
-by_id = {e["id"]: e for e in kf["findings"]}
+fixed = [e for e in kf["findings"] if e.get("status") == "fixed"]
+fixed_ids = {e["id"] for e in fixed}
+found = []
 for f in sorted(glob.glob(os.path.join(ROOT, "known_findings.d", "*.json"))):
     if os.path.basename(f)[:-5] not in reg["checks"]:
-        continue        # fragment of a property that is not registered yet
+        continue
     for e in json.load(open(f)):
-        if e.get("status") != "finding":
-            continue        # repaired defects are recorded by the coordinator as status=fixed
-        if e["id"] not in by_id:
-            by_id[e["id"]] = e
-            kf["findings"].append(e)
-        elif by_id[e["id"]].get("status") != "fixed":
-            kf["findings"][kf["findings"].index(by_id[e["id"]])] = e
-            by_id[e["id"]] = e
+        if e.get("status") == "finding" and e["id"] not in fixed_ids:
+            found.append(e)
+kf["findings"] = sorted(fixed + found, key=lambda e: (e["property"], e["status"], e["id"]))
 json.dump(kf, open(kf_path, "w"), indent=1)
 import jsonschema
 jsonschema.validate(m, json.load(open("/root/.vp/MANIFEST.schema.json")))
